@@ -1,0 +1,11 @@
+//go:build verif
+
+package transaction
+
+import "github.com/LemoFoundationLtd/lemochain-core/common"
+
+// VerifVerifyTempAddress exposes verifyTempAddress(creator, tempAddress) to the C06 correspondence harness (read-only:
+// the function looks at the bytes of its two arguments and nothing else).
+func VerifVerifyTempAddress(creator, tempAddress common.Address) error {
+	return verifyTempAddress(creator, tempAddress)
+}
